@@ -36,12 +36,18 @@ Fixpoint cls_sub (t : cls_table) (a b : N) : bool :=
   | (j, anc) :: r => if N.eqb j a then existsb (N.eqb b) anc else cls_sub r a b
   end.
 
-Definition chost (full : scripts) (mg : mgr_table) (ct : cls_table) : host scripts := {|
+(* message sites of asserts: site id -> exception raised while building the message (None: builds fine) *)
+Definition msg_table := list (N * option exc).
+Fixpoint msg_get (j : N) (t : msg_table) : option exc :=
+  match t with [] => None | (i, b) :: r => if N.eqb i j then b else msg_get j r end.
+
+Definition chost (full : scripts) (mg : mgr_table) (ms : msg_table) (ct : cls_table) : host scripts := {|
   h_cond := sc_pop full;
   h_iter := fun k cur => sc_set k (sc_get k full) cur;
   h_next := sc_pop full;
   h_enter := fun k cur => (fst (mgr_get k mg), cur);
   h_exit := fun k _ cur => (snd (mgr_get k mg), cur);
+  h_msg := fun j cur => (msg_get j ms, cur);
   h_sub := cls_sub ct
 |}.
 
@@ -51,6 +57,7 @@ Record fcase := {
   fc_body : list stmt;
   fc_scripts : scripts;
   fc_mgrs : mgr_table;
+  fc_msgs : msg_table;
   fc_ps : obs;            (* observed: the real AstEval *)
   fc_py : option obs      (* observed: CPython; None = identical to fc_ps (keeps the generated files small) *)
 }.
@@ -68,6 +75,7 @@ Definition event_eqb (a b : event) : bool :=
   | EvExit k i, EvExit k' i' => N.eqb k k' && oexc_eqb i i'
   | EvP k n v, EvP k' n' v' => N.eqb k k' && N.eqb n n' && oexc_eqb v v'
   | EvRet k v, EvRet k' v' => N.eqb k k' && oN_eqb v v'
+  | EvMsg j, EvMsg j' => N.eqb j j'
   | _, _ => false
   end.
 Definition cres_eqb (a b : call_result) : bool :=
@@ -81,9 +89,9 @@ Definition run_eqb (r : list event * call_result) (o : obs) : bool :=
   list_eqb event_eqb (fst r) (o_log o) && cres_eqb (snd r) (o_res o).
 
 Definition model_ps (cfg : deviations) (ct : cls_table) (c : fcase) : list event * call_result :=
-  ps_exec (chost (fc_scripts c) (fc_mgrs c) ct) cfg chk_fuel (fc_body c) (fc_scripts c).
+  ps_exec (chost (fc_scripts c) (fc_mgrs c) (fc_msgs c) ct) cfg chk_fuel (fc_body c) (fc_scripts c).
 Definition model_py (ct : cls_table) (c : fcase) : list event * call_result :=
-  py_exec (chost (fc_scripts c) (fc_mgrs c) ct) chk_fuel (fc_body c) (fc_scripts c).
+  py_exec (chost (fc_scripts c) (fc_mgrs c) (fc_msgs c) ct) chk_fuel (fc_body c) (fc_scripts c).
 
 Definition fcase_model_ok (cfg : deviations) (ct : cls_table) (c : fcase) : bool :=
   supported (fc_body c) && run_eqb (model_ps cfg ct c) (fc_ps c) && run_eqb (model_py ct c) (py_obs c).
